@@ -71,14 +71,21 @@ def obs_size(s):
     return (Fraction(s.value), s.unit.value)
 
 
+def _enum_obs(v, cls):
+    """the value of an alignment member; a member of the wrong enumeration is not that value"""
+    if not v:
+        return "N"
+    return v.value if type(v).__name__ == cls else "!%s.%s" % (type(v).__name__, getattr(v, "name", v))
+
+
 def obs_layout(l):
     if l is None:
         return None
     return (None if l.origin is None else (obs_size(l.origin.x), obs_size(l.origin.y)),
             None if l.extent is None else (obs_size(l.extent.horizontal), obs_size(l.extent.vertical)),
             None if l.padding is None else tuple(obs_size(x) for x in (l.padding.before, l.padding.after, l.padding.start, l.padding.end)),
-            None if l.alignment is None else ((l.alignment.horizontal.value if l.alignment.horizontal else "N"),
-                                               (l.alignment.vertical.value if l.alignment.vertical else "N")),
+            None if l.alignment is None else (_enum_obs(l.alignment.horizontal, "HorizontalAlignmentEnum"),
+                                               _enum_obs(l.alignment.vertical, "VerticalAlignmentEnum")),
             l.webvtt_positioning)
 
 
